@@ -265,6 +265,10 @@ fn utf8(cx: &Cx, alpha: &[u8], max_len: usize) {
 const SPECIALS: &[&[u8]] = &[
     &[0x80], &[0xff], &[0xc3], &[0xc3, 0xa9], &[0xc0, 0x80], &[0xe2, 0x82], &[0xe2, 0x82, 0xac], &[0xed, 0xa0, 0x80],
     &[0xf0, 0x9f, 0x98], &[0xf0, 0x9f, 0x98, 0x80], &[0xf4, 0x90, 0x80, 0x80], &[0x00],
+    // valid text that a "helpful" conversion might treat specially: byte order mark, U+FFFE, replacement character, line / paragraph
+    // separators, NEL, no-break space, ASCII white space and line ends, a quote
+    &[0xef, 0xbb, 0xbf], &[0xef, 0xbf, 0xbe], &[0xef, 0xbf, 0xbd], &[0xe2, 0x80, 0xa8], &[0xc2, 0x85], &[0xc2, 0xa0], &[b' '], &[b'\n'], &[b'\r', b'\n'], &[b'\t'], &[b'"'],
+    &[0xef, 0xbb, 0xbf, 0xef, 0xbb, 0xbf],
 ];
 
 #[repr(align(64))]
@@ -545,7 +549,7 @@ fn main() {
             name: "utf8_long",
             explore: Box::new(|cx: &Cx| {
                 let l = cx.tier.pick(24, 40);
-                cx.rule("utf8_long", &format!("buffers of every length 0..={} filled with ASCII plus ONE special sequence (continuation byte, 0xff, truncated/complete 2-, 3-, 4-byte sequences, overlong, surrogate, > U+10FFFF, NUL) at every position, starting at every alignment offset 0..8 of a 64-byte aligned array; same oracle as [utf8]", l));
+                cx.rule("utf8_long", &format!("buffers of every length 0..={} filled with ASCII plus ONE special sequence (continuation byte, 0xff, truncated/complete 2-, 3-, 4-byte sequences, overlong, surrogate, > U+10FFFF, NUL; byte order mark (once and twice), U+FFFE, U+FFFD, U+2028, NEL, no-break space, blank, LF, CRLF, TAB, quote) at every position, starting at every alignment offset 0..8 of a 64-byte aligned array; same oracle as [utf8]", l));
                 utf8_long(cx, l);
             }),
             replay: Box::new(|c: &Value| {
